@@ -735,6 +735,41 @@ theorem newV4_of_acceptable (ord : List String) (ps : List Proof) (mint : String
   exact ⟨{ tokenProofs := gs, memo := "", mintURL := mint, unit := unitString 0 },
     by simp [newV4, newV4With, hm, hgs]⟩
 
+/-- The first loop of `NewTokenV4` returns the error of the FIRST proof that fails a check. -/
+theorem buildMap_first_error (d : Bool) (pre : List Proof) (p : Proof) (post : List Proof) (e : NewErr)
+    (hpre : ∀ x ∈ pre, V4Acceptable d x) (hp : toV4 d p = .error e) :
+    ∀ m, buildMap d (pre ++ p :: post) m = .error e := by
+  induction pre with
+  | nil => intro m; simp [buildMap, hp]
+  | cons x rest ih =>
+    intro m
+    obtain ⟨q, hq⟩ := toV4_of_acceptable d x (hpre x (by simp))
+    simp only [List.cons_append, buildMap, hq]
+    exact ih (fun y hy => hpre y (by simp [hy])) _
+
+theorem buildGroups_length (m : GoMap) (ord : List String) : ∀ gs, buildGroups m ord = .ok gs →
+    gs.length = ord.length ∧ ∀ g ∈ gs, ∃ k ∈ ord, hexDecode k = .ok g.id ∧ g.proofs = m.get k := by
+  induction ord with
+  | nil => intro gs h; simp [buildGroups] at h; subst h; simp
+  | cons k ks ih =>
+    intro gs h
+    unfold buildGroups at h
+    split at h
+    · cases h
+    · rename_i idb hk
+      split at h
+      · cases h
+      · rename_i gs' hgs
+        cases h
+        obtain ⟨h1, h2⟩ := ih gs' hgs
+        refine ⟨by simp [h1], ?_⟩
+        intro g hg
+        simp only [List.mem_cons] at hg
+        rcases hg with rfl | hg
+        · exact ⟨k, by simp, hk, rfl⟩
+        · obtain ⟨k', hk', h3⟩ := h2 g hg
+          exact ⟨k', by simp [hk'], h3⟩
+
 /-! ### grouping by keyset id is a permutation that keeps the order inside each keyset -/
 
 theorem flatMap_filter_perm_aux (ps : List Proof) (ks : List String) (hnd : ks.Nodup) :
